@@ -4,9 +4,9 @@ from .. import core, hist, world as W
 from .c01 import fix_disagreements
 
 MODULES = ['DsdVerif.Props.C10']
-GEN_FILES = []
+GEN_FILES = ['Dunders']
 THEOREM_NAMES = ['lexLt_strictTotal', 'strLt_strictTotal', 'ckeyLt_strictTotal', 'mkeyLt_strictTotal', 'memLt_strictTotal', 'rkeyLt_strictTotal_on_typed', 'le_total', 'le_trans', 'lt_iff_le_not_le', 'le_antisymm', 'dom_eq_hash', 'sortBy_perm', 'sortBy_sorted', 'sortBy_perm_invariant']
-THEOREMS = ['Dsd.C11.' + t for t in THEOREM_NAMES]
+THEOREMS = ['Dsd.C11.' + t for t in THEOREM_NAMES] + ['Dsd.C10.dunders_coherent', 'Dsd.C10.dunder_keys']
 ASSUMPTIONS = [
     'the comparison operators of the five classes are functions of the canonical forms; they are modelled by strict orders on the keys '
     '(Model/Objects.lean: strLt, ckeyLt, mkeyLt, memLt, rkeyLt, leOf) and tied to __eq__/__lt__/__le__/__hash__ by the `cmp` stream',
@@ -17,12 +17,15 @@ MANIFEST = {
     'text': 'Partial (aliasing clause by oracle only). Proof for the order / equality algebra: the key orders of all five kinds are strict '
             'total orders (lexLt_strictTotal, strLt/ckeyLt/mkeyLt/memLt/rkeyLt), hence <=/>= form a total transitive preorder with '
             'lt_iff_le_not_le and antisymmetry up to equal keys, equal domains have equal hash keys, and sorting permutations of a '
-            'population gives equal lists (sortBy_perm_invariant). The model orders are tied to the real operators on all pairs of '
+            'population gives equal lists (sortBy_perm_invariant). The comparison and hashing methods AS WRITTEN in base_classes.py are '
+            'translated on every run (Gen/Dunders.lean: operator and attributes per method) and proved coherent (dunders_coherent: '
+            '__ne__ negates __eq__, the four order methods apply < > <= >= to one key that is part of the equality key, __hash__ hashes '
+            'part of the equality key; dunder_keys). The model orders are tied to the real operators on all pairs of '
             'generated populations including objects of different subclass registries, complexes differing only in structure and '
             'reactions differing only in type; coherence laws are also checked directly on all pairs and triples; every identity '
             'attribute is assigned (must raise, object unchanged) and every handed-out view is mutated and re-read.',
     'note': 'View aliasing and setter behaviour are decided by the oracle on the real objects only.',
-    'technique': 'Lean 4 proofs of strict-total-order laws for lexicographic key orders; correspondence check on all pairs; oracle for setters/aliasing',
+    'technique': 'Lean 4 proofs of strict-total-order laws for lexicographic key orders + coherence of the translated comparison methods; correspondence check on all pairs; oracle for setters/aliasing',
 }
 
 
